@@ -270,8 +270,21 @@ pub fn c01_long_case(verb: &str, target: &str, line_len: usize) -> Vec<Finding> 
         "+#x" => vec![1],
         _ => vec![],
     };
+    // a server may also refuse a message it cannot relay whole: then the sender is told (an error
+    // numeric; a refused NOTICE is silent) and nobody gets anything - what it must not do is
+    // deliver something else than was sent
+    let mine = w.take_lines(0);
+    let refused = mine.iter().filter_map(|l| crate::canon::parse_server_line(l)).any(|m| m.cmd.len() == 3 && m.cmd.starts_with('4'));
+    let mut copies: Vec<Vec<crate::canon::Msg>> = vec![vec![]];
     for slot in 1..4 {
-        let got: Vec<crate::canon::Msg> = w.take_lines(slot).iter().filter_map(|l| crate::canon::parse_server_line(l)).filter(|m| m.cmd == verb).collect();
+        copies.push(w.take_lines(slot).iter().filter_map(|l| crate::canon::parse_server_line(l)).filter(|m| m.cmd == verb).collect());
+    }
+    let nobody = copies.iter().all(|c| c.is_empty());
+    if nobody && (refused || verb == "NOTICE") && line_len > 1024 {
+        return out;
+    }
+    for slot in 1..4 {
+        let got: Vec<crate::canon::Msg> = std::mem::take(&mut copies[slot]);
         if receivers.contains(&slot) {
             if got.len() != 1 {
                 out.push(finding("long:copies", format!("{} {} with a line of {} bytes: receiver slot {} got {} copies", verb, target, line_len, slot, got.len())));
@@ -282,7 +295,6 @@ pub fn c01_long_case(verb: &str, target: &str, line_len: usize) -> Vec<Finding> 
             out.push(finding("long:stray", format!("{} {}: slot {} is not addressed but got a copy", verb, target, slot)));
         }
     }
-    let mine = w.take_lines(0);
     if mine.iter().any(|l| l.contains(verb)) {
         out.push(finding("long:stray", format!("{} {}: the sender got its own message back", verb, target)));
     }
@@ -958,7 +970,18 @@ pub fn c09_long_topic_case(len: usize) -> Vec<Finding> {
     text.push_str("END");
     m!(w.send(0, &format!("TOPIC #c :{}", text)));
     let told: Vec<String> = w.take_lines(1).iter().filter_map(|l| crate::canon::parse_server_line(l)).filter(|m| m.cmd == "TOPIC").filter_map(|m| m.params.last().cloned()).collect();
+    let own_lines = w.take_lines(0);
     w.take_all();
+    // a server may refuse a topic it will not keep whole: the setter is told, nobody else is, and
+    // no topic is shown afterwards
+    if told.is_empty() && len > 256 {
+        let own: Vec<crate::canon::Msg> = own_lines.iter().filter_map(|l| crate::canon::parse_server_line(l)).collect();
+        let refused = own.iter().any(|m| (m.cmd.len() == 3 && m.cmd.starts_with('4')) || m.cmd.starts_with("ERROR"));
+        let still_none = m!(query(&mut w, 1, "TOPIC #c")).iter().any(|m| m.cmd == "331");
+        if refused && still_none {
+            return out;
+        }
+    }
     if told.len() != 1 || told[0].is_empty() || !text.starts_with(told[0].as_str()) {
         out.push(finding("topic:announce", format!("TOPIC with a text of {} bytes: the other member was told {:?} texts (lengths {:?})", len, told.len(), told.iter().map(|t| t.len()).collect::<Vec<_>>())));
         return out;
